@@ -151,6 +151,22 @@ def check(run):
                  "attempts whose client has already hung up when they reach admission (request context done beforehand) on an idle, half attached "
                  "and fully attached broker, with the right, a wrong and an empty ID: each is still either attached (and then logged) or refused "
                  "with its notice and its single error record; monitor only")
+    okf, gen, flog = vlib.run_translator(run, "openflags")
+    run.checker_cmds.append("translator/openflags (go/parser over /repo/*.go) -> GenLogFlags.v ; coqc GenDepC11.v (mode_of_flags = MAppend)")
+    if not okf:
+        run.oblige("translator openflags ran on /repo's working tree", False, flog[-2000:])
+    else:
+        open(os.path.join(run.rundir, "GenLogFlags.v"), "w").write(gen)
+        open(os.path.join(run.rundir, "GenDepC11.v"), "w").write(
+            "From Coq Require Import List NArith String.\nFrom CRS Require Import Lib.Bytes Model.LogFile Props.C11.\nFrom Gen Require Import GenLogFlags.\n"
+            "Theorem c11_tree_log_opened_for_append : log_open_calls = 1%nat /\\ log_other_opens = 0%nat /\\ mode_of_flags log_open_flags = MAppend /\\ "
+            "has \"O_CREATE\" log_open_flags = true /\\ N.land log_open_perm 63 = 0%N.\nProof. vm_compute. repeat split; reflexivity. Qed.\n"
+            "Print Assumptions c11_tree_log_opened_for_append.\n")
+        rc1, o1, e1 = vlib.coqc("GenLogFlags.v", run.rundir, extra_q=[(run.rundir, "Gen")])
+        rc2, o2, e2 = vlib.coqc("GenDepC11.v", run.rundir, extra_q=[(run.rundir, "Gen")]) if rc1 == 0 else (1, "", "")
+        run.oblige("per-run obligation c11_tree_log_opened_for_append: in the working tree the -log file is opened by exactly one os.OpenFile call whose flags "
+                   "give Model/LogFile's append mode (O_APPEND, no O_TRUNC), with O_CREATE and permission bits none of which is for group or others - the mode "
+                   "c11_append_keeps_everything is about", rc1 == 0 and rc2 == 0, (gen + o1 + e1 + o2 + e2)[-2500:])
     logfile_stream(run)
     run.assumptions += ["slog.NewJSONHandler's escaping itself is standard library; the check verifies one parsable object per line and record counts, "
                         "data fields are compared before JSON encoding"]
